@@ -28,6 +28,9 @@ for d in sorted(glob.glob(os.path.join(HERE, "seeded", "C*-*"))):
     if after:
         verdict += " → caught after strengthening"
         first_sig = after.replace("KILLED ", "")[:70]
+    elif s.get("note"):
+        verdict = "not judged (outside the statement's quantifier)"
+        strengthen = s["note"]
     rows.append((sid, summary[:150], needs[:150], "yes" if demo_ok else "CHECK", "yes" if suite_ok else "CHECK", verdict, first_sig, strengthen))
 
 lines = ["| id | change (agent's summary) | needs to manifest | demo passes w/o, fails with | 102 tests green | quick check of the property | first signature | strengthening done |",
@@ -35,8 +38,10 @@ lines = ["| id | change (agent's summary) | needs to manifest | demo passes w/o,
 for r in rows:
     lines.append("| " + " | ".join(r) + " |")
 caught = sum(1 for r in rows if r[5] == "caught")
-missed = sum(1 for r in rows if r[5].startswith("missed"))
-head = f"{len(rows)} seeded changes confirmed; {caught} caught by the quick check as it stood, {missed} missed at first and caught after the monitor was strengthened (generator / shapes widened, verdicts never loosened).\n\n"
+missed = sum(1 for r in rows if r[5].startswith("missed") and "caught after" in r[5])
+open_ = sum(1 for r in rows if r[5].startswith("missed") and "caught after" not in r[5])
+notj = sum(1 for r in rows if r[5].startswith("not judged"))
+head = f"{len(rows)} seeded changes confirmed; {caught} caught by the quick check as it stood, {missed} missed at first and caught after the monitor was strengthened (generator / shapes widened, verdicts never loosened), {open_} still missed, {notj} not judged because its trigger lies outside the statement's quantifier.\n\n"
 table = head + "\n".join(lines) + "\n"
 open(os.path.join(HERE, "seeded", "RESULTS.md"), "w").write("# Independently seeded changes\n\n" + table)
 p = os.path.join(HERE, "DESIGN.md")
